@@ -181,6 +181,33 @@ def register_executor(R, P):
                   "content(self.system.executor.refstack)", "content(self.system.executor.rolledback)",
                   "self.system.executor.ghost_runs"],
         alloc=True)
+    R.contract("extern::FormulaRun", trusted=True,
+        note="the abstract procedure 'run the user's formula' (bf.altfunc(*key)): rely contract Stable + A-PURE, assumed",
+        params={"bf": "CellsBoundFunction", "key": "key"}, returns="val",
+        requires=["WF(cs(bf.owner))", "len(cs(bf.owner)) > 0", "cs(bf.owner)[-1] == item(bf.owner, key)",
+                  "GWF(bf.owner.model.tracegraph)", "RGWF(bf.owner.model.refgraph)"],
+        ensures=[c.replace("self", "bf.owner") for c in STABLE],
+        raises={"*": [c.replace("self", "bf.owner") for c in STABLE]},
+        modifies=["every_content('dict[key,val]')", "every_content('set[key]')", "every_content('graph')", "every_content('graph[rnode]')",
+                  "content(bf.owner.system.executor.refstack)", "content(bf.owner.system.executor.rolledback)",
+                  "bf.owner.system.executor.ghost_runs"],
+        alloc=True)
+    R.contract("modelx/core/cells.py::CellsImpl.on_eval_formula",
+        params={"self": "CellsImpl", "key": "key"}, returns="val",
+        requires=["WF(cs(self))", "len(cs(self)) > 0", "cs(self)[-1] == item(self, key)", "GWF(self.model.tracegraph)", "RGWF(self.model.refgraph)",
+                  "self.altfunc.fresh.owner is self", "has_setting(self)", "SEP()",
+                  "all(self.data is not c.input_keys for c in every('CellsImpl'))"],
+        # refines the interface contract NodeObj.on_eval_formula clause by clause ...
+        ensures=[c for c in STABLE if not c.startswith("DATA-MONO")] + [
+            "STORED:: implies(self.is_cached, key in self.data and self.data[key] == result)",
+            # ... (C09: in the uncached branch the only effects are FormulaRun's own: there is no store call on that path)
+            "DATA-MONO:: all(implies(old(k in c.data) and not (c is self and k == key), k in c.data and c.data[k] == old(c.data[k])) for c in every('NodeObj') for k in every('key'))",
+        ],
+        raises={"*": STABLE},
+        modifies=["every_content('dict[key,val]')", "every_content('set[key]')", "every_content('graph')", "every_content('graph[rnode]')",
+                  "content(self.system.executor.refstack)", "content(self.system.executor.rolledback)",
+                  "self.system.executor.ghost_runs"],
+        alloc=True)
     R.contract("extern::NodeObj.has_node", trusted=True, pure=True,
         note="CellsImpl.has_node is `key in self.data` (proved under C01); ItemSpaceParent.has_node is `key in self.param_spaces`",
         params={"self": "NodeObj", "key": "key"}, returns="bool",
